@@ -61,6 +61,23 @@ def iterate : PV → Option (List PV)
   | .str s => some (s.map (fun c => PV.str [c]))
   | .atom _ => none
 
+/-- what one entry contributes to a list literal, given its resolved value -/
+def listEntry (e : Val) (r : PV) : Except RErr (List PV) :=
+  match e with
+  | .struct k sp _ =>
+    if sp.isSome then
+      if k ≠ .list then .error (.tse "cannot spread non-list value into a list")
+      else match r with
+        | .list xs => .ok xs
+        | _ => .ok [r]
+    else .ok [r]
+  | .value parts =>
+    if firstSpreadOf parts then
+      match iterate r with
+      | some xs => .ok xs
+      | none => .error (.type "object is not iterable")
+    else .ok [r]
+
 mutual
   /-- `TagValue.resolve` / `TagValueStruct.resolve` -/
   def resolveVal (eq : PV → PV → Bool) (leaf : Str → Option PV) : Val → Except RErr PV
@@ -87,22 +104,7 @@ mutual
       match resolveVal eq leaf e with
       | .error err => .error err
       | .ok r =>
-        let here : Except RErr (List PV) :=
-          match e with
-          | .struct k sp _ =>
-            if sp.isSome then
-              if k ≠ .list then .error (.tse "cannot spread non-list value into a list")
-              else match r with
-                | .list xs => .ok xs
-                | _ => .ok [r]
-            else .ok [r]
-          | .value parts =>
-            if firstSpreadOf parts then
-              match iterate r with
-              | some xs => .ok xs
-              | none => .error (.type "object is not iterable")
-            else .ok [r]
-        match here with
+        match listEntry e r with
         | .error err => .error err
         | .ok xs =>
           match resolveList eq leaf es with
@@ -145,6 +147,20 @@ def strOfPV : PV → Option Str
   | .str s => some s
   | _ => none
 
+/-- what one attribute contributes to the call, given its resolved value -/
+def attrParams (a : Attr) (r : PV) : Except RErr (List Param) :=
+  if (valSpread a.value).isSome then
+    if (match a.key with | some k => !k.isEmpty | none => false) then .error (.value "cannot spread onto a key")
+    else
+      match r with
+      | .dict kvs =>
+        .ok (kvs.map (fun kv => { key := (match strOfPV kv.1 with | some s => some s | none => some []), value := kv.2 }))
+      | other =>
+        match iterate other with
+        | some xs => .ok (xs.map (fun x => { key := none, value := x }))
+        | none => .error (.value "cannot spread non-iterable value")
+  else .ok [{ key := a.key, value := r }]
+
 /-- `resolve_params` up to (not including) the aggregate step -/
 def resolveAttrs (eq : PV → PV → Bool) (leaf : Str → Option PV) : List Attr → Except RErr (List Param)
   | [] => .ok []
@@ -152,19 +168,7 @@ def resolveAttrs (eq : PV → PV → Bool) (leaf : Str → Option PV) : List Att
     match resolveVal eq leaf a.value with
     | .error e => .error e
     | .ok r =>
-      let here : Except RErr (List Param) :=
-        if (valSpread a.value).isSome then
-          if (match a.key with | some k => !k.isEmpty | none => false) then .error (.value "cannot spread onto a key")
-          else
-            match r with
-            | .dict kvs =>
-              .ok (kvs.map (fun kv => { key := (match strOfPV kv.1 with | some s => some s | none => some []), value := kv.2 }))
-            | other =>
-              match iterate other with
-              | some xs => .ok (xs.map (fun x => { key := none, value := x }))
-              | none => .error (.value "cannot spread non-iterable value")
-        else .ok [{ key := a.key, value := r }]
-      match here with
+      match attrParams a r with
       | .error e => .error e
       | .ok ps =>
         match resolveAttrs eq leaf as with
@@ -191,26 +195,90 @@ def aggConflict : List Param → List Str → List Str → Bool
 
 def strEq (a b : Str) : Bool := a == b
 
+def isPlainParam (p : Param) : Bool :=
+  match p.key with
+  | some k => !isAggregateKey k
+  | none => true
+
+def strKeyEq (a b : PV) : Bool :=
+  match a, b with
+  | .str x, .str y => x == y
+  | _, _ => false
+
+/-- one aggregate keyword `outer:inner=value` added to `nested_kwargs` (outer keys in order of first
+appearance, inner keys with dict semantics) -/
+def aggStep (acc : List (Str × List (PV × PV))) (p : Param) : List (Str × List (PV × PV)) :=
+  match p.key with
+  | some k =>
+    if isAggregateKey k then
+      let oi := splitFirstColon k
+      if acc.any (fun e => e.1 == oi.1) then
+        acc.map (fun e => if e.1 == oi.1 then (e.1, dictSet strKeyEq (.str oi.2) p.value e.2) else e)
+      else acc ++ [(oi.1, dictSet strKeyEq (.str oi.2) p.value [])]
+    else acc
+  | none => acc
+
+def aggNested (ps : List Param) : List (Str × List (PV × PV)) := ps.foldl aggStep []
+
 /-- `process_aggregate_kwargs` -/
 def processAggregate (ps : List Param) : Except RErr (List Param) :=
   if aggConflict ps [] [] then .error (.tse "regular and aggregate key conflict")
   else
-    let plain := ps.filter (fun p => match p.key with | some k => !isAggregateKey k | none => true)
+    let plain := ps.filter isPlainParam
     let seen := plain.filterMap (fun p => p.key)
-    -- nested_kwargs: outer key -> dict of inner keys, in order of first appearance
-    let nested : List (Str × List (PV × PV)) :=
-      ps.foldl (fun acc p =>
-        match p.key with
-        | some k =>
-          if isAggregateKey k then
-            let oi := splitFirstColon k
-            let upd (d : List (PV × PV)) : List (PV × PV) :=
-              dictSet (fun a b => match a, b with | .str x, .str y => x == y | _, _ => false) (.str oi.2) p.value d
-            if acc.any (fun e => e.1 == oi.1) then acc.map (fun e => if e.1 == oi.1 then (e.1, upd e.2) else e)
-            else acc ++ [(oi.1, upd [])]
-          else acc
-        | none => acc) []
+    let nested := aggNested ps
     if nested.any (fun e => seen.contains e.1) then .error (.tse "regular and aggregate key conflict")
     else .ok (plain ++ nested.map (fun e => { key := some e.1, value := .dict e.2 }))
+
+end Djc.Model.Resolve
+
+namespace Djc.Model.Resolve
+open Djc.Model.TagParser
+
+/-- `TagValueStruct.serialize()` for the cases needed to recognise flags and the self-closing `/` -/
+def serializeSimple : Val → Option Str
+  | .value parts => some (serializeParts false parts)
+  | .struct .simple _ (e :: _) =>
+    (match e with
+     | .value parts => some (serializeParts false parts)
+     | _ => none)
+  | _ => none
+
+/-- `_extract_flags`: returns the remaining attributes and the flags found -/
+def extractFlags (allowed : List Str) : List Attr → List Str → Except RErr (List Attr × List Str)
+  | [], found => .ok ([], found)
+  | a :: as, found =>
+    match serializeSimple a.value with
+    | some v =>
+      if allowed.contains v then
+        if (valSpread a.value).isSome then .error (.tse "flag cannot be spread")
+        else if found.contains v then .error (.tse "flag given twice")
+        else extractFlags allowed as (found ++ [v])
+      else
+        (match extractFlags allowed as found with
+         | .error e => .error e
+         | .ok (rest, f) => .ok (a :: rest, f))
+    | none =>
+      (match extractFlags allowed as found with
+       | .error e => .error e
+       | .ok (rest, f) => .ok (a :: rest, f))
+
+/-- everything between `parse_tag` and the call of the Python receiver -/
+def resolveTag (eq : PV → PV → Bool) (leaf : Str → Option PV) (allowedFlags : List Str)
+    (attrs : List Attr) : Except RErr (List Param × List Str) :=
+  -- the first attribute is the tag name; a trailing `/` marks a self-closing tag
+  let body := attrs.drop 1
+  let body := match body.getLast? with
+    | some l => if serializeSimple l.value = some ['/'] ∧ l.key.isNone then body.dropLast else body
+    | none => body
+  match extractFlags allowedFlags body [] with
+  | .error e => .error e
+  | .ok (rest, flags) =>
+    match resolveAttrs eq leaf rest with
+    | .error e => .error e
+    | .ok ps =>
+      match processAggregate ps with
+      | .error e => .error e
+      | .ok ps' => .ok (ps', flags)
 
 end Djc.Model.Resolve
